@@ -174,19 +174,12 @@ fn collect_body<const MX: usize, const R: usize, const L: usize, const BLOCK: us
     core::mem::forget(scanner);
 }
 
-/// C02 on blocks of several rows at an affordable size: the sequence is a concrete
-/// background symbol except at the given positions (symbolic), and the threshold is
-/// concrete, so that only the windows touching a symbolic symbol are symbolic
-/// candidates. Everything else (oracle, exhaustion) is as in `collect_body`.
-fn collect_sparse_body<const MX: usize, const R: usize, const L: usize, const BLOCK: usize, const K: usize>(
-    arm: Dispatch,
-    t: f32,
+/// Striped sequence of concrete length L: a concrete background symbol everywhere
+/// except at `spots`, which hold symbolic symbols.
+fn striped_sparse<const R: usize, const L: usize>(
     background: u8,
     spots: &[usize],
-) {
-    set_verif_override(Some(arm));
-    let (pssm, rows) = matrix(MX);
-    let m = rows.len();
+) -> (StripedSequence<Dna, U32>, [Nucleotide; MAXL]) {
     let mut mat = DenseMatrix::<Nucleotide, U32>::new(R);
     let mut lin = [Nucleotide::N; MAXL];
     for c in 0..32 {
@@ -202,7 +195,79 @@ fn collect_sparse_body<const MX: usize, const R: usize, const L: usize, const BL
             lin[i] = s;
         }
     }
-    let mut st = StripedSequence::<Dna, U32>::verif_new_unchecked(mat, L);
+    (StripedSequence::<Dna, U32>::verif_new_unchecked(mat, L), lin)
+}
+
+/// C03 counterpart of `collect_sparse_body` (concrete threshold, sparse symbolic symbols).
+fn max_sparse_body<const MX: usize, const R: usize, const L: usize, const BLOCK: usize, const PRE: usize>(
+    arm: Dispatch,
+    t: f32,
+    background: u8,
+    spots: &[usize],
+) {
+    set_verif_override(Some(arm));
+    let (pssm, rows) = matrix(MX);
+    let m = rows.len();
+    let (mut st, lin) = striped_sparse::<R, L>(background, spots);
+    st.configure(&pssm);
+    let n = if L >= m { L + 1 - m } else { 0 };
+    assume_few_candidates::<R>(&pssm, &lin, t);
+    let mut scanner = Scanner::new(&pssm, &st);
+    scanner.threshold(t);
+    scanner.block_size(BLOCK);
+    let mut consumed = [usize::MAX; 2];
+    for k in 0..PRE {
+        if let Some(hit) = scanner.next() {
+            assert!(hit.position() < n);
+            consumed[k] = hit.position();
+        }
+    }
+    let best: Option<Hit> = Iterator::max(scanner);
+    let mut top = f32::NEG_INFINITY;
+    let mut any = false;
+    for c in 0..32 {
+        for r in 0..R {
+            let i = c * R + r;
+            if i < n && consumed[0] != i && consumed[1] != i {
+                let s = ref_score(rows, &lin, i);
+                if s >= t {
+                    if !any || s > top {
+                        top = s;
+                    }
+                    any = true;
+                }
+            }
+        }
+    }
+    match best {
+        None => assert!(!any, "max() returned None although a position meets the threshold"),
+        Some(hit) => {
+            assert!(any, "max() returned a hit although no position meets the threshold");
+            let p = hit.position();
+            assert!(p < n && consumed[0] != p && consumed[1] != p, "best hit outside the un-consumed positions");
+            assert!(hit.score() == ref_score(rows, &lin, p), "best hit carries a wrong score");
+            assert!(hit.score() >= t, "best hit below the threshold");
+            assert!(hit.score() == top, "best hit is not a maximum-scoring position");
+            crate::witness!(p == n - 1, "opt: best hit at the last position");
+        }
+    }
+    crate::witness!(!any, "opt: no position meets the threshold");
+}
+
+/// C02 on blocks of several rows at an affordable size: the sequence is a concrete
+/// background symbol except at the given positions (symbolic), and the threshold is
+/// concrete, so that only the windows touching a symbolic symbol are symbolic
+/// candidates. Everything else (oracle, exhaustion) is as in `collect_body`.
+fn collect_sparse_body<const MX: usize, const R: usize, const L: usize, const BLOCK: usize, const K: usize>(
+    arm: Dispatch,
+    t: f32,
+    background: u8,
+    spots: &[usize],
+) {
+    set_verif_override(Some(arm));
+    let (pssm, rows) = matrix(MX);
+    let m = rows.len();
+    let (mut st, lin) = striped_sparse::<R, L>(background, spots);
     st.configure(&pssm);
     let n = if L >= m { L + 1 - m } else { 0 };
     let mut count = 0usize;
@@ -333,10 +398,17 @@ harness!(avx2vec, 66, c02_m5_r2_l33_b3_generic, collect_body::<5, 2, 33, 3, 2>(D
 //@ C02 thorough 10800 scanner to exhaustion: matrix 0 (M=2), R=1, L=2 (= M), AVX2 arm | mem=8 | unwindset=scan::Scanner<.*Iterator>::next#0:6
 harness!(avx2vec, 34, c02_m0_r1_l2_b256_avx2, collect_body::<0, 1, 2, 256, 2>(Dispatch::Avx2));
 
-//@ C02 quick 800 scanner to exhaustion, blocks of 2 rows: matrix 0 (M=2), R=2, L=63, block 2, AVX2 arm, threshold -1, background T, symbolic symbols at 1, 3, 61, 62 (the cell past the last position sits in row 0, hits in row 1) | mem=12 | unwindset=scan::Scanner<.*Iterator>::next#0:6
+//@ C02 thorough 10800 scanner to exhaustion, blocks of 2 rows: matrix 0 (M=2), R=2, L=63, block 2, AVX2 arm, threshold -1, background T, symbolic symbols at 1, 3, 61, 62 (the cell past the last position sits in row 0, hits in row 1) | mem=12 | unwindset=scan::Scanner<.*Iterator>::next#0:6
 harness!(avx2vec, 66, c02_sparse_m0_r2_l63_b2_avx2, collect_sparse_body::<0, 2, 63, 2, 2>(Dispatch::Avx2, -1.0, 2, &[1, 3, 61, 62]));
 //@ C02 thorough 10800 scanner to exhaustion, blocks of 3 rows: matrix 2 (M=3), R=3, L=94, block 3, generic arm, threshold 1.5, background A, symbolic symbols at 4, 5, 91, 92, 93 | mem=12 | unwindset=scan::Scanner<.*Iterator>::next#0:6
 harness!(avx2vec, 98, c02_sparse_m2_r3_l94_b3_generic, collect_sparse_body::<2, 3, 94, 3, 2>(Dispatch::Generic, 1.5, 0, &[4, 5, 91, 92, 93]));
+
+//@ C02 quick 800 scanner to exhaustion: matrix 0 (M=2), R=1, L=4 all symbolic, threshold 1.0, AVX2 arm | mem=8 | unwindset=scan::Scanner<.*Iterator>::next#0:6
+harness!(avx2vec, 34, c02_tiny_m0_r1_l4_avx2, collect_sparse_body::<0, 1, 4, 256, 2>(Dispatch::Avx2, 1.0, 0, &[0, 1, 2, 3]));
+//@ C02 quick 800 scanner to exhaustion: matrix 3 (finite wildcard column, M=2), R=1, L=5 all symbolic, threshold 3.0, generic arm | mem=8 | unwindset=scan::Scanner<.*Iterator>::next#0:6
+harness!(avx2vec, 34, c02_tiny_m3_r1_l5_generic, collect_sparse_body::<3, 1, 5, 256, 2>(Dispatch::Generic, 3.0, 0, &[0, 1, 2, 3, 4]));
+//@ C02 quick 800 scanner to exhaustion: matrix 0 (M=2), R=1, L=32 (full last column), symbolic symbols at 0, 1, 30, 31 on a background of T, threshold 2.0, AVX2 arm | mem=8 | unwindset=scan::Scanner<.*Iterator>::next#0:6
+harness!(avx2vec, 34, c02_tiny_m0_r1_l32_avx2, collect_sparse_body::<0, 1, 32, 256, 2>(Dispatch::Avx2, 2.0, 2, &[0, 1, 30, 31]));
 
 // --- C03 -------------------------------------------------------------------------------
 //@ C03 thorough 10800 scanner max(): matrix 0 (M=2), R=1, L=32, default block, AVX2 arm, no prior next() | mem=16 | unwindset=scan::Scanner<.*Iterator>::next#0:6;scan::Scanner<.*Iterator>::max#0:6
@@ -361,3 +433,9 @@ harness!(avx2vec, 66, c03_m2_r3_l80_b2_avx2_pre0, max_body::<2, 3, 80, 2, 0>(Dis
 harness!(avx2vec, 66, c03_m1_r2_l33_b3_sse2_pre1, max_body::<1, 2, 33, 3, 1>(Dispatch::Sse2));
 //@ C03 thorough 10800 scanner max(): matrix 4 (constant rows), R=1, L=10, AVX2 arm | mem=16 | unwindset=scan::Scanner<.*Iterator>::next#0:6;scan::Scanner<.*Iterator>::max#0:6
 harness!(avx2vec, 34, c03_m4_r1_l10_b256_avx2_pre0, max_body::<4, 1, 10, 256, 0>(Dispatch::Avx2));
+//@ C03 quick 800 scanner max(): matrix 0 (M=2), R=1, L=4 all symbolic, threshold 1.0, AVX2 arm, no prior next() | mem=8 | unwindset=scan::Scanner<.*Iterator>::next#0:6;scan::Scanner<.*Iterator>::max#0:6
+harness!(avx2vec, 34, c03_tiny_m0_r1_l4_avx2_pre0, max_sparse_body::<0, 1, 4, 256, 0>(Dispatch::Avx2, 1.0, 0, &[0, 1, 2, 3]));
+//@ C03 quick 800 scanner max(): matrix 2 (M=3, near-ties under byte rounding), R=1, L=6 all symbolic, threshold 1.25, AVX2 arm, no prior next() | mem=8 | unwindset=scan::Scanner<.*Iterator>::next#0:6;scan::Scanner<.*Iterator>::max#0:6
+harness!(avx2vec, 34, c03_tiny_m2_r1_l6_avx2_pre0, max_sparse_body::<2, 1, 6, 256, 0>(Dispatch::Avx2, 1.25, 0, &[0, 1, 2, 3, 4, 5]));
+//@ C03 quick 800 scanner max(): matrix 0 (M=2), R=1, L=5 all symbolic, threshold 2.0 (a score value: equality matters), generic arm, one prior next() | mem=8 | unwindset=scan::Scanner<.*Iterator>::next#0:6;scan::Scanner<.*Iterator>::max#0:6
+harness!(avx2vec, 34, c03_tiny_m0_r1_l5_generic_pre1, max_sparse_body::<0, 1, 5, 256, 1>(Dispatch::Generic, 2.0, 0, &[0, 1, 2, 3, 4]));
